@@ -1,11 +1,15 @@
 import Casket.Model.Reload
+import Casket.Model.ReloadSource
 import Casket.Spec.Reload
 import Driver.Proto
 /-
 Streams of C07.
   c07.handover  S:<kind>  op op …     op = R:<kind> (reload) | T:<kind> (reload with a request in flight on address 1)
                                          | L:<kind> (reload while a request on address 1 outlives the graceful period)
-     kinds: addresses served, e.g. 1, 12, 2, 21; suffix x = the configuration fails during setup; 3 = an address in use
+     kinds: addresses served, e.g. 1, 12, 2, 21; suffix x = the configuration fails during setup, y = it fails while
+            it is parsed; 3 = an address in use; optional /<spelling> = how the configuration is WRITTEN (i I g s m o, see
+            Model/ReloadSource.lean) — the model writes it, loads what is written at the call and runs the machine on that;
+            the judge sees the meaning only
      out = step|step|…   step = <res>;fd=<f1>.<f2>;sk=<s1>.<s2>;p=<m1>.<m2>;ni=<instances>[;mid=<m>][;str=<m>]
   c07.storm     recorded trace of a reload storm under concurrent clients (see harness/streams/c07.go)
 -/
@@ -14,18 +18,34 @@ open Casket.Reload Casket.ReloadSpec
 
 def busy : List Nat := [3]
 
-def parseKind (s : String) : Option Cfg :=
+def parseSpelling : String → Option Spelling
+  | "i" => some .imported
+  | "I" => some .importedKeepTime
+  | "g" => some .glob
+  | "s" => some .snippet
+  | "m" => some .shared
+  | "o" => some .layout
+  | _ => none
+
+def parseAddrs (s : String) : Option Cfg :=
   let cs := s.toList
-  let (cs, x) := if cs.getLast? == some 'x' then (cs.dropLast, true) else (cs, false)
+  let (cs, x) := if cs.getLast? == some 'x' || cs.getLast? == some 'y' then (cs.dropLast, true) else (cs, false)
   if cs.isEmpty then none else
   if cs.all (fun c => c == '1' || c == '2' || c == '3') then
     some { addrs := cs.map fun c => c.toNat - '0'.toNat, failSetup := x }
   else none
 
-def parseHOp (s : String) : Option HOp :=
-  if s.startsWith "R:" then (parseKind (s.drop 2).toString).map .reload
-  else if s.startsWith "T:" then (parseKind (s.drop 2).toString).map .straddle
-  else if s.startsWith "L:" then (parseKind (s.drop 2).toString).map .longflight
+def parseKind (s : String) : Option (Cfg × Spelling) :=
+  match s.splitOn "/" with
+  | [k] => (parseAddrs k).map fun c => (c, .inline)
+  | [k, sp] => do pure (← parseAddrs k, ← parseSpelling sp)
+  | _ => none
+
+def parseHOp (s : String) : Option WOp :=
+  let mk (k : HKind) : Option WOp := (parseKind (s.drop 2).toString).map fun p => { kind := k, cfg := p.1, sp := p.2 }
+  if s.startsWith "R:" then mk .reload
+  else if s.startsWith "T:" then mk .straddle
+  else if s.startsWith "L:" then mk .longflight
   else none
 
 def showObs (o : HObs) : String :=
@@ -33,18 +53,18 @@ def showObs (o : HObs) : String :=
   let base := match o.mid with | some m => s!"{base};mid={m}" | none => base
   match o.str with | some s => s!"{base};str={s}" | none => base
 
-def parseCase : List String → Option (Cfg × List HOp)
+def parseCase : List String → Option (Cfg × Spelling × List WOp)
   | [] => none
   | s :: ops =>
     if !s.startsWith "S:" then none else
     match parseKind (s.drop 2).toString, ops.mapM parseHOp with
-    | some c, some hops => if c.failSetup || c.addrs.contains 3 then none else some (c, hops)
+    | some (c, sp), some ws => if c.failSetup || c.addrs.contains 3 then none else some (c, sp, ws)
     | _, _ => none
 
 def handoverModel (f : List String) : String :=
   match parseCase f with
   | none => "bad-case"
-  | some (c, hops) => "|".intercalate ((handoverRun busy c hops).map showObs)
+  | some (c, sp, ws) => "|".intercalate ((handoverRunW busy c sp ws).map showObs)
 
 def stripPrefix (p s : String) : Option String :=
   if s.startsWith p then some (s.drop p.length).toString else none
@@ -73,10 +93,10 @@ def parseObs (s : String) : Option HObs :=
 def handoverJudge (f : List String) (out : String) : String :=
   match parseCase f with
   | none => if out = "bad-case" then "ok" else "bad:malformed-case-accepted:" ++ out
-  | some (c, hops) =>
+  | some (c, _, ws) =>
     match (out.splitOn "|").mapM parseObs with
     | none => "bad:unparsable:" ++ out
-    | some obs => verdict busy c hops obs
+    | some obs => verdict busy c (ws.map WOp.meaning) obs
 
 /-! c07.storm  kinds  reloads  requests     (recorded by the generator from a run of the real code)
       reloads  = comma list of call:ret:gen:ok        requests = comma list of start:stop:answer   (answer - = failed)
